@@ -67,6 +67,20 @@ H void h_dist(const long* ids, long n, const long* kinds, const long* e, long m,
   }
 }
 
+// the same graph labelled twice: first from slot s1, then (on the graph that now carries the first labelling) from slot s2;
+// dist = the second labelling
+H void h_relabel(const long* ids, long n, const long* kinds, const long* e, long m, const long* order, const long* eorder, long s1, long s2, long* dist) {
+  Graph g = build(ids, n, kinds, e, m, order, eorder);
+  { GraphDistVisitor gv; gv.setStartingVertex(ids[s1]); exploreGraph(g, gv); }
+  GraphDistVisitor gv2; gv2.setStartingVertex(ids[s2]); exploreGraph(g, gv2);
+  std::set<Index> ex = gv2.getExploredVertices();
+  for (long i = 0; i < n; i++) {
+    if (!ex.count(ids[i])) { dist[i] = -1; continue; }
+    GraphNode gn = g.getNode(ids[i]);
+    dist[i] = gn.getInt("Dist");
+  }
+}
+
 // components: comp[i] = index of the sub graph holding vertex slot i (-1 none, -2 more than one); ecomp[j] likewise for edge j;
 // returns the number of sub graphs; extra[0] = total vertices over all parts, extra[1] = total edges over all parts
 H long h_decouple(const long* ids, long n, const long* kinds, const long* e, long m, const long* order, const long* eorder, long* comp, long* ecomp, long* extra) {
@@ -115,7 +129,7 @@ H long h_single(const long* ids, long n, const long* kinds, const long* e, long 
 
 
 // everything except the structure id in one call (one graph construction per operation, shared symbolic decisions):
-// out layout: dist[n*n] (start s, vertex i) | parts, vtot, etot, comp[n], ecomp[m] | exp_edges, exp_vertices, red_edges, vcount[n], ecount[m] | single[n]
+// out layout: dist[n*n] (start s, vertex i) | parts, vtot, etot, comp[n], ecomp[m] | exp_edges, exp_vertices, red_edges, vcount[n], ecount[m] | single[n] | relabel[n]
 // starts: bit s set = distances / single-network detection are computed from start slot s (other rows are filled with -9)
 H void h_all(const long* ids, long n, const long* kinds, const long* e, long m, const long* order, const long* eorder, long starts, long* out) {
   long* p = out;
@@ -123,6 +137,7 @@ H void h_all(const long* ids, long n, const long* kinds, const long* e, long m, 
   { long x[2]; long k = h_decouple(ids, n, kinds, e, m, order, eorder, p + 3, p + 3 + n, x); p[0] = k; p[1] = x[0]; p[2] = x[1]; p += 3 + n + m; }
   { long x[2]; long k = h_reduce_expand(ids, n, kinds, e, m, order, eorder, p + 3, p + 3 + n, x); p[0] = k; p[1] = x[0]; p[2] = x[1]; p += 3 + n + m; }
   for (long s = 0; s < n; s++) *p++ = ((starts >> s) & 1) ? h_single(ids, n, kinds, e, m, order, eorder, s) : -9;
+  h_relabel(ids, n, kinds, e, m, order, eorder, 0, n - 1, p);
 }
 
 #ifdef VERIF_NATIVE
@@ -146,7 +161,7 @@ int main(int argc, char** argv) {
     else if (op == "decouple") { long c[16], ec[32], x[2]; long k = h_decouple(ids, n, kinds, e, m, order, eorder, c, ec, x); printf("%ld %ld %ld", k, x[0], x[1]); for (long i = 0; i < n; i++) printf(" %ld", c[i]); for (long j = 0; j < m; j++) printf(" %ld", ec[j]); printf("\n"); }
     else if (op == "reduce") { long vc[16], ec[32], x[2]; long k = h_reduce_expand(ids, n, kinds, e, m, order, eorder, vc, ec, x); printf("%ld %ld %ld", k, x[0], x[1]); for (long i = 0; i < n; i++) printf(" %ld", vc[i]); for (long j = 0; j < m; j++) printf(" %ld", ec[j]); printf("\n"); }
     else if (op == "single") { printf("%ld\n", h_single(ids, n, kinds, e, m, order, eorder, s)); }
-    else if (op == "all") { long o[512]; h_all(ids, n, kinds, e, m, order, eorder, s ? s : -1, o); long tot = n * n + 2 * (3 + n + m) + n; for (long i = 0; i < tot; i++) printf("%ld ", o[i]); printf("\n"); }
+    else if (op == "all") { long o[512]; h_all(ids, n, kinds, e, m, order, eorder, s ? s : -1, o); long tot = n * n + 2 * (3 + n + m) + 2 * n; for (long i = 0; i < tot; i++) printf("%ld ", o[i]); printf("\n"); }
     else return 2;
   } catch (std::exception& ex) { printf("EXC %s\n", ex.what()); }
   return 0;
